@@ -137,10 +137,15 @@ def mutations_of(stmt):
         yield ('statement deleted', ast.Pass())
 
 
-def gen(per_function=6, seed=7):
+def gen(per_function=6, seed=7, prefix='M'):
     os.makedirs(OUT, exist_ok=True)
+    have = set()
     for f in os.listdir(OUT):
-        os.unlink(os.path.join(OUT, f))
+        if f.startswith(prefix):
+            os.unlink(os.path.join(OUT, f))
+        else:
+            r = json.load(open(os.path.join(OUT, f)))
+            have.add((r['file'], r['line'], r['new']))
     rnd = random.Random(seed)
     n = 0
     for path, funcs in TARGETS.items():
@@ -179,8 +184,10 @@ def gen(per_function=6, seed=7):
                         text = ast.unparse(mut)
                         new_lines = [indent + l for l in text.split('\n')]
                         end = st.end_lineno
+                if (path, st.lineno, '\n'.join(new_lines)) in have:
+                    continue
                 n += 1
-                mid = 'M%04d' % n
+                mid = '%s%04d' % (prefix, n)
                 rec = dict(id=mid, file=path, function=qual, props=props, line=st.lineno, end=end, desc=desc,
                            old='\n'.join(lines[st.lineno - 1:end]), new='\n'.join(new_lines))
                 json.dump(rec, open(os.path.join(OUT, mid + '.json'), 'w'), indent=1)
@@ -249,7 +256,7 @@ def check(jobs):
                 apply(rec, wt)
                 res = {}
                 for prop in rec['props']:
-                    p = subprocess.run(['./check', prop, '--tier', 'quick'], cwd=V, env=dict(os.environ, PYVC_REPO=wt), capture_output=True, text=True)
+                    p = subprocess.run(['./check', prop, '--tier', 'quick'], cwd=V, env=dict(os.environ, PYVC_REPO=wt, PYVC_EVIDENCE=os.path.join(wt, '.evidence')), capture_output=True, text=True)
                     lines_ = [l for l in p.stdout.split('\n') if re.match(r'VIOLATION|UNDECIDED|CHECKER', l)]
                     res[prop] = dict(exit=p.returncode, first=[re.sub(r'.*obligation=', '', l)[:110] for l in lines_[:2]])
                     if p.returncode == 1:
@@ -294,7 +301,8 @@ if __name__ == '__main__':
     cmd = sys.argv[1]
     jobs = int(sys.argv[sys.argv.index('-j') + 1]) if '-j' in sys.argv else 4
     if cmd == 'gen':
-        gen(per_function=int(sys.argv[2]) if len(sys.argv) > 2 and sys.argv[2].isdigit() else 6)
+        gen(per_function=int(sys.argv[2]) if len(sys.argv) > 2 and sys.argv[2].isdigit() else 6,
+            seed=int(sys.argv[3]) if len(sys.argv) > 3 else 7, prefix=sys.argv[4] if len(sys.argv) > 4 else 'M')
     elif cmd == 'suite':
         suite(jobs)
     elif cmd == 'check':
